@@ -137,7 +137,7 @@ fn gen_with(rng: &mut Rng, op: usize, form: Form, forces: Vec<(K, u32)>, lit: Li
 }
 
 pub fn run(cfg: &Cfg, rep: &mut Report) {
-    rep.rule = "grammar-conforming instructions generated from the frozen grammar: (A) each of the 787 opcodes in minimal, maximal and random form, (B) every enumerant of every value enum forced through an opcode (or parameter) that carries the kind, else at operand level through Operand::assemble + the typed Decoder request, (C) every single bit / all bits / random subsets of every mask with their parameters, (D) every pool string (lengths 0..9 incl. multi-byte) at a LiteralString position of every opcode that has one, (E) every literal width for OpConstant/OpSpecConstant/OpSwitch, (F) random fill incl. nested OpSpecConstantOp; each instruction: assemble() == reference encoding word for word, parse(header ++ type context ++ words) delivers an equal instruction. distinct_nontrivial = distinct (opcode, operand-kind-shape) pairs checked".into();
+    rep.rule = "grammar-conforming instructions generated from the frozen grammar: (A) each of the 787 opcodes in minimal, maximal and random form, (B) every enumerant of every value enum forced through an opcode (or parameter) that carries the kind, else at operand level through Operand::assemble + the typed Decoder request, (C) every single bit / all bits / random subsets of every mask with their parameters, (D) every pool string (lengths 0..9 incl. multi-byte) at a LiteralString position of every opcode that has one, (E) every literal width for OpConstant/OpSpecConstant/OpSwitch, (F) random fill incl. nested OpSpecConstantOp, (G) OpExtInst after an OpExtInstImport of every known / near-miss set name x every number of the sets' tables x 0..5 id operands; each instruction: assemble() == reference encoding word for word, parse(header ++ type context ++ words) delivers an equal instruction. distinct_nontrivial = distinct (opcode, operand-kind-shape) pairs checked".into();
     rep.assumptions.push("grammar = frozen reference table and parameter lists (stand-in for the Khronos grammar of SDK 1.4.309.0)".into());
     let d = db();
     let n_ops = d.insts.len() as u64;
@@ -316,6 +316,40 @@ pub fn run(cfg: &Cfg, rep: &mut Report) {
             }
         }
     });
+    // ---- extended instructions in context: OpExtInst whose set operand names an earlier OpExtInstImport of
+    //      every known / near-miss set name, every instruction number of the sets' tables (plus edge numbers),
+    //      0..5 id operands: by the grammar the operands after the number are ids, whatever the set says
+    {
+        let names = crate::scale::IMPORT_NAMES;
+        let mut nums: Vec<u32> = d.glsl.iter().map(|e| e.opcode).chain(d.cl.iter().map(|e| e.opcode)).collect();
+        nums.extend([0u32, 1, 82, 163, 255, 256, 65_535, 65_536, u32::MAX]);
+        nums.sort();
+        nums.dedup();
+        let nums = &nums;
+        run_stage(cfg, rep, "ext-inst-context", (names.len() * nums.len()) as u64 * cfg.n(2, 24), |idx, rng, r| {
+            let name = names[(idx % names.len() as u64) as usize];
+            let num = nums[((idx / names.len() as u64) % nums.len() as u64) as usize];
+            let rp = || crate::util::replay_ref(cfg, "ext-inst-context", idx).set("set", name).set("number", num);
+            let mut gen = Gen::with_id_policy(rng);
+            let mut ctx = context(&mut gen);
+            let set = gen.fresh();
+            if rng.chance(1, 3) {
+                let other = gen.fresh();
+                ctx.push(AInst::named("ExtInstImport", None, Some(other), vec![AOp::s(*rng.pick(names))]));
+            }
+            ctx.push(AInst::named("ExtInstImport", None, Some(set), vec![AOp::s(name)]));
+            let mut ops = vec![AOp::id(set), AOp::w(K::LiteralExtInstInteger, num)];
+            for _ in 0..rng.below(6) {
+                let v = if rng.chance(1, 2) { rng.below(8) as u32 } else { gen.fresh() };
+                ops.push(AOp::id(v));
+            }
+            let (t, rid) = (gen.fresh(), gen.fresh());
+            let x = AInst::named("ExtInst", Some(t), Some(rid), ops);
+            if check_inst(&x, &ctx, r, &rp, &format!("ExtInst-after-import-{}", name.trim())) {
+                r.nontrivial(format!("extinst:{}:{}", name, num));
+            }
+        });
+    }
     // ---- (F) random fill
     let n = cfg.n(150_000, 50_000_000);
     run_stage(cfg, rep, "random", n, |idx, rng, r| {
